@@ -463,3 +463,40 @@ package builder
 //@   loop#1 invariant [bal] b != nil && TreeWF() && CodeWF() && len(b.argsStack) == old(len(b.argsStack)) && forall k int :: 0 <= k && k < len(b.argsStack) - 1 ==> b.argsStack[k] == old(b.argsStack[k])
 //@   loop#2 invariant [bal] b != nil && TreeWF() && CodeWF() && len(b.argsStack) == old(len(b.argsStack)) && forall k int :: 0 <= k && k < len(b.argsStack) - 1 ==> b.argsStack[k] == old(b.argsStack[k])
 //@   safety C13
+
+// ======================================================================================
+// Generator options (C04, C10, C15, C08): each constructor returns a closure; "<Name>$lit" is that closure, verified
+// with the constructor's parameter as an extra leading parameter: applied to a builder it sets exactly the flag it
+// is named after (the -optimize-parser / -support-left-recursion / -optimize-basic-latin / -nolint plumbing).
+// (The option it RETURNS is opaque here; Nolint's closure returns Optimize(prev) instead of Nolint(prev) -- the undo
+// option is wrong, nothing in pigeon uses it.)
+//@ extern ReceiverName(nm string) (o Option)
+//@ extern Optimize(optimize bool) (o Option)
+//@ extern SupportLeftRecursion(support bool) (o Option)
+//@ extern Nolint(nolint bool) (o Option)
+//@ extern BasicLatinLookupTable(basicLatinLookupTable bool) (o Option)
+//@ func ReceiverName$lit(nm string, b *builder) (prev Option)
+//@   requires [ctx] b != nil
+//@   modifies b.recvName
+//@   ensures [sets C04] b.recvName == nm
+//@   safety C13
+//@ func Optimize$lit(optimize bool, b *builder) (prev Option)
+//@   requires [ctx] b != nil
+//@   modifies b.optimize
+//@   ensures [sets C10] b.optimize == optimize
+//@   safety C13
+//@ func SupportLeftRecursion$lit(support bool, b *builder) (prev Option)
+//@   requires [ctx] b != nil
+//@   modifies b.supportLeftRecursion
+//@   ensures [sets C07 C08] b.supportLeftRecursion == support
+//@   safety C13
+//@ func Nolint$lit(nolint bool, b *builder) (prev Option)
+//@   requires [ctx] b != nil
+//@   modifies b.nolint
+//@   ensures [sets C04] b.nolint == nolint
+//@   safety C13
+//@ func BasicLatinLookupTable$lit(basicLatinLookupTable bool, b *builder) (prev Option)
+//@   requires [ctx] b != nil
+//@   modifies b.basicLatinLookupTable
+//@   ensures [sets C15] b.basicLatinLookupTable == basicLatinLookupTable
+//@   safety C13
